@@ -4,6 +4,8 @@ import (
 	"context"
 	"fmt"
 	"os"
+	"slices"
+	"strings"
 	"sync"
 	"time"
 
@@ -294,7 +296,12 @@ func (r *Reader) include(ctx context.Context, node Node) error {
 				)
 			} else {
 				// If the edge already exists
+				// Keep the includes in a stable order as the goroutines may
+				// finish in any order
 				edgeData := append(edge.Properties.Data.([]*ast.Include), include)
+				slices.SortFunc(edgeData, func(a, b *ast.Include) int {
+					return strings.Compare(a.Namespace, b.Namespace)
+				})
 				err = r.graph.UpdateEdge(
 					node.Location(),
 					includeNode.Location(),
